@@ -131,6 +131,7 @@ func TestC01(t *testing.T) {
 		Gen: func(t *rapid.T) HistCase {
 			o := defaultLayoutOpts()
 			o.HugePct = 3
+			o.BigRatioPct = 2
 			l := genLayout(t, o)
 			if l.Archives[0].Points > 2730 {
 				// runs of thousands of slots: keep the history short (every step re-reads the whole archive)
@@ -140,5 +141,24 @@ func TestC01(t *testing.T) {
 		},
 		Run:  runC01,
 		Trim: trimHist,
+		Fixed: func() []HistCase {
+			// one batch of more points than any plausible write buffer holds (2^16 + 1 and more), into an archive
+			// of that size, then a wrap: cover batches of the generator stop at 8000 points
+			mk := func(n, step int64, more []Arch) HistCase {
+				l := Layout{Archives: append([]Arch{{Step: step, Points: n}}, more...), Method: 2, XFF: 0}
+				now := int64(1500000000)
+				var pts []MPoint
+				for i := n - 1; i >= 0; i-- {
+					pts = append(pts, MPoint{T: now - i*step, V: F64(float64(n-i) * 0.5)})
+				}
+				return HistCase{L: l, Now: now, Ops: []Op{
+					{Kind: "batch", ID: 0, Points: pts, Windows: []Window{{ID: 0, From: now - n*step, Until: now}, {ID: 0, From: now - 70000*step, Until: now - 60000*step}}},
+					{Kind: "advance", Advance: 3 * step},
+					{Kind: "update", ID: 0, T: now + 3*step, V: 7},
+					{Kind: "reopen"},
+				}}
+			}
+			return []HistCase{mk(65537, 1, nil), mk(70001, 2, []Arch{{Step: 120, Points: 1200}})}
+		},
 	})
 }
